@@ -32,6 +32,7 @@ LEVEL_TEXT = ("Valid, almost valid and garbage query strings (incl. deep nesting
 LEVEL_NOTE = "Exceptions are bucketed by root cause (type + innermost frame in the package); termination is only checked up to a generous CPU budget."
 
 CPU_BUDGET = 20.0
+HARD_WALL = 120      # seconds of wall clock before the watchdog ends a worker stuck in one call
 BATTERY = [
     None, True, False, 0, -1, 1.5, "", "a", [], {},
     [None, True, False, 0, 1.5, "", "a", [], {}, [1], {"a": 1}],
@@ -131,18 +132,21 @@ def examine(case):
     q = case["q"]
     if case.get("deep_value"):
         case = dict(case, doc=deep_value_doc(*case["deep_value"]))
+    from vlib.runner import inflight
     old = signal.signal(signal.SIGVTALRM, _alarm)
+    small = {k: v for k, v in case.items() if k != "doc"} if case.get("deep_value") else case
     try:
-        for attempt in (1, 2):
-            signal.setitimer(signal.ITIMER_VIRTUAL, CPU_BUDGET)
-            try:
-                return run_case(q, case.get("doc"), case.get("inline", False))
-            except Budget:
-                if attempt == 2:
-                    return {"bucket": "suspected-hang", "what": f"compile/find of {q[:120]!r} exceeded {CPU_BUDGET}s of CPU twice",
-                            "expected": f"termination within {CPU_BUDGET}s", "observed": "budget exceeded twice"}
-            finally:
-                signal.setitimer(signal.ITIMER_VIRTUAL, 0)
+      with inflight(small, HARD_WALL):     # a call stuck inside C code cannot be interrupted by the CPU budget below
+          for attempt in (1, 2):
+              signal.setitimer(signal.ITIMER_VIRTUAL, CPU_BUDGET)
+              try:
+                  return run_case(q, case.get("doc"), case.get("inline", False))
+              except Budget:
+                  if attempt == 2:
+                      return {"bucket": "suspected-hang", "what": f"compile/find of {q[:120]!r} exceeded {CPU_BUDGET}s of CPU twice",
+                              "expected": f"termination within {CPU_BUDGET}s", "observed": "budget exceeded twice"}
+              finally:
+                  signal.setitimer(signal.ITIMER_VIRTUAL, 0)
     finally:
         signal.signal(signal.SIGVTALRM, old)
     return None
@@ -274,7 +278,9 @@ def record(shard, q, origin, inline=False):
         case["doc"] = BATTERY[h64(q) % len(BATTERY)]
         origin = origin + "+environment-dropped"
     stage = "rejected"
-    st, got = lib.compile_(q)
+    from vlib.runner import inflight
+    with inflight(case, HARD_WALL):
+        st, got = lib.compile_(q)
     if st == "ok":
         stage = "compiled"
     shard.case(key=q, nontrivial=q.startswith("$") and len(q) > 3, classes={"gen:" + origin, "stage:" + stage},
